@@ -265,14 +265,19 @@ type Prop struct {
 	Replay func(v *Violation) (fails bool, detail string)
 	// Finalize turns merged counters into the evidence coverage map.
 	Finalize func(r *Result, tier string) map[string]any
-	Rule        string
-	Assumptions []string
-	Trusted     []string
+	// Conformance is an optional script (relative to /verif) that replays the reference model
+	// against the upstream tool; run in the thorough tier. Its last line must contain
+	// "pairs=N disagreements=M".
+	Conformance     string
+	ConformanceArgs map[string]string // tier -> argument
+	Rule            string
+	Assumptions     []string
+	Trusted         []string
 }
 
 var registry = map[string]*Prop{}
 
-func Register(p *Prop) { registry[p.ID] = p }
+func Register(p *Prop)    { registry[p.ID] = p }
 func Get(id string) *Prop { return registry[id] }
 func IDs() []string {
 	var ids []string
